@@ -5,9 +5,12 @@ package xpath
 // Contracts for the govc verifier (/verif). Comments only: this file adds no declarations.
 
 // the generated (goyacc) parser is abstracted: it builds a fresh expression tree and touches nothing else
-//@ func Parse(s string) (*Path, error)
+// exprOf(p): the expression text a parsed path stands for
+//@ pure exprOf(p *Path) string
+//@ func Parse(pstr string) (*Path, error)
 //@   trusted
 //@   assigns nothing
+//@   ensures result1 == nil ==> result0 != nil && exprOf(result0) === pstr
 
 // ---- C16: numeric literals of an expression --------------------------------------------------------------------
 // a literal without a decimal point is read as a 64-bit integer, exactly (never through a float, which would round
